@@ -35,7 +35,7 @@ def build(spec):
     from allmydata.grid_manager import SignedCertificate
     from allmydata.util import base32
     priv, pub = keypair(spec["signer"])
-    info = {"expires": (T0 + timedelta(seconds=spec["expires"])).isoformat(), "public_key": str(server_pub(spec["server"]), "ascii"), "version": 1}
+    info = {"expires": (T0 + timedelta(seconds=spec["expires"])).isoformat(), "public_key": spec.get("public_key") or str(server_pub(spec["server"]), "ascii"), "version": 1}
     data = json.dumps(info, separators=(",", ":"), sort_keys=True).encode("utf-8")
     sig = ed25519.sign_data(priv, data)
     if spec["tamper"] == "body":
